@@ -17,3 +17,4 @@ CONSTANTS
   BIGSET = TRUE
   SAMPLE = 53
   STREAMLEN = 0
+  TWOCOLOURS = FALSE
